@@ -119,10 +119,11 @@ theorem setFinish_ok {E : Env} {c : TraitCfg} {s s' : St} {name : String} {key v
   · cases h
   · exact (Prod.mk.inj h).2.symm
 
-theorem setFinish_stray {E : Env} (hh : ∀ n, E.hashOk n = true) (c : TraitCfg) (s : St) (name : String)
+theorem setFinish_stray (E : Env) (c : TraitCfg) (s : St) (name : String)
     (key v value : Id) (old : Option Id) (d p : Nat) :
     (setFinish E c s name key v value old d p).2.stray = s.stray := by
-  simp [setFinish, hh]
+  unfold setFinish
+  split <;> rfl
 
 theorem getattrTrait_stray (E : Env) (c : TraitCfg) (s : St) (name : String) (key : Id) (d p n : Nat) :
     (getattrTrait E c s name key d p n).2.2.stray = s.stray := by
@@ -131,22 +132,22 @@ theorem getattrTrait_stray (E : Env) (c : TraitCfg) (s : St) (name : String) (ke
   · rfl
   · split <;> rfl
 
-theorem setattrTrait_stray {E : Env} (hh : ∀ n, E.hashOk n = true) (c : TraitCfg) (s : St) (name : String)
+theorem setattrTrait_stray (E : Env) (c : TraitCfg) (s : St) (name : String)
     (key v : Id) : (setattrTrait E c s name key v).2.stray = s.stray := by
   unfold setattrTrait
   split
   · rfl
   · split
     · split
-      · exact setFinish_stray hh ..
+      · exact setFinish_stray ..
       · split
         · rfl
         · split
           · rfl
           · split
             · rfl
-            · rw [setFinish_stray hh]
-    · exact setFinish_stray hh ..
+            · rw [setFinish_stray]
+    · exact setFinish_stray ..
 
 theorem delattrTrait_stray (E : Env) (c : TraitCfg) (s : St) (name : String) (key : Id) :
     (delattrTrait E c s name key).2.stray = s.stray := by
